@@ -73,9 +73,9 @@ checks = {
    text="Damage faults are applied by the driver to the stored files between two incarnations; the real start-up and query code runs on the damaged tree. Per query: every returned row must equal the undamaged row (altered values from a checksummed column block are never accepted), rows may be missing only with a reported error and only from queries touching the damaged file, no crash, no hang. Thorough enumerates the space until the time budget; exhaustive is claimed only when everything was run.",
    note=TRUST + " One damage at a time; the query suite is fixed (9 queries). Many robustness defects of unchecksummed metadata files are recorded as known findings; altered values from .csg blocks are not among them and fail the check."),
  "C20": dict(level="exploration", ref="DESIGN.md §4 C20",
-   technique="deterministic simulation on the fake clock: the node's own alert cron jobs evaluate generated log alerts over seeded per-minute event batches, with restarts and seeded webhook delivery failures over the simulated network; alert history, state reads and recorded deliveries compared with the N-window state machine over a reference aggregate evaluator",
-   text="Simulated minutes cost milliseconds, so 5-21 minute alert histories (1-3 concurrent alerts, 8 query shapes, 5 conditions, interval 1-3 min, window N x interval) run against the real gocron scheduler, sqlite store, query engine and notification handler. Every history row's state must follow Firing iff all of the last N outcomes held / Pending iff the latest but not all / Normal otherwise, with outcomes computed independently from the ingested events inside each evaluation window; evaluations must happen once per interval (also after a restart); notifications must be exactly one per Firing evaluation (cool-down is 0 in this store), one on return to Normal after a delivered Firing, none otherwise, under seeded delivery failures.",
-   note=TRUST + " Part A (alert state machine) only so far; metric alerts and the saved-object keyed stores are not driven yet. An ungrouped sum/min/max/avg over an empty window is left undefined (engine answers 0, SPL null). sqlite does its own real file I/O outside the disk seam."),
+   technique="deterministic simulation on the fake clock with restarts and a seeded scheduler: (A) the node's own alert cron jobs evaluate generated log alerts over seeded per-minute event batches with seeded webhook delivery failures; history, state and recorded deliveries compared with the N-window state machine over a reference aggregate evaluator; (B) seeded create/update/rename/move/delete/list histories with kill and graceful restarts, interleaved organisations and concurrent clients against the real handlers of dashboards, folders, saved queries, index aliases, lookup files, contact points and alerts, compared operation by operation with a keyed-store reference model",
+   text="A: simulated minutes cost milliseconds, so 5-21 minute alert histories (1-3 concurrent alerts, 8 query shapes, 5 conditions, interval 1-3 min, window N x interval) run against the real gocron scheduler, sqlite store, query engine and notification handler; every history row must follow Firing iff all of the last N outcomes held / Pending iff the latest but not all / Normal otherwise; evaluations once per interval (also after a restart); notifications exactly one per Firing evaluation (cool-down is 0 in this store), one on return to Normal after a delivered Firing. B: 15-120 operation histories over a per-run subset of seven stores and 1-3 organisations, with repeated and unusual names, stale and foreign ids, restarts (killed or graceful) at seeded positions followed by a full read-back, and a phase of 2-4 concurrent clients owning disjoint objects under seeded pre-emption; an operation is applied to the model iff the node acknowledged it, valid operations must be acknowledged and invalid ones refused, every read/list must equal the model, foreign organisations must not be able to change an object.",
+   note=TRUST + " Metric alerts are not driven. An ungrouped sum/min/max/avg over an empty window is left undefined (engine answers 0, SPL null). sqlite does its own real file I/O outside the disk seam, so crashes inside a store operation are not enumerated here (restarts are at operation boundaries). Organisations other than 0 are reached through the handlers' myid parameter. Lookup files go through the real HTTP route."),
  "C01": dict(level="exploration", ref="DESIGN.md §4 C01",
    technique="deterministic simulation: seeded ingest/flush/rotate/restart histories on the real node under the seeded scheduler, checked against an event-set reference model",
    text="Seeded search over ingest histories (batching, flush, forced rotation, idle-timer flush, graceful restart, swarm knobs) executed by the real writer/reader/query code inside a deterministic simulator; after every flush-completing step the match-all result must equal the model's event multiset field by field. Exploration is the right level: the space of histories x JSON shapes is unbounded.",
